@@ -1,4 +1,5 @@
 """Shared driver for the server-side E3 checks (C02, C03, C04, C05, C13)."""
+from mc import bodies
 from mc.core import Out, drive
 from mc.ref import server as ref
 
@@ -7,11 +8,12 @@ _WORLDS = {}
 
 def world(key):
     """key = (version, use_jsonclass, dispatch, instance)"""
-    w = _WORLDS.get(key)
+    rkey = repr(key)  # 2 and 2.0 are different configurations
+    w = _WORLDS.get(rkey)
     if w is None:
         version, use_jsonclass, dispatch, instance = key
         w = ref.World(version=version, use_jsonclass=use_jsonclass, dispatch=dispatch, instance=instance)
-        _WORLDS[key] = w
+        _WORLDS[rkey] = w
     return w
 
 
@@ -21,6 +23,7 @@ def make_evaluate(props, fresh_world=False):
 
     def evaluate(case):
         key, body = case
+        body = bodies.realise(body)
         w = ref.World(version=key[0], use_jsonclass=key[1], dispatch=key[2], instance=key[3]) if fresh_world else world(key)
         viols, label, in_domain = ref.evaluate_body(w, body)
         out = Out(cls=label, nontrivial=in_domain)
@@ -41,3 +44,16 @@ def body_leg(part, leg, props, cases, shard, nshards):
 def replay_body(props, case):
     c = eval(case["case"], {"__builtins__": {}}, {})
     return make_evaluate(props, fresh_world=True)(c).viols
+
+
+SCALES = {"quick": (1001, 1025, 2500), "thorough": (1001, 1025, 4097, 20000)}
+DEPTHS = {"quick": (25, 60, 150), "thorough": (25, 33, 60, 150, 300)}
+
+
+def scale_cases(tier, worlds):
+    """One body per size dimension beyond the small scope (large batches, deep nesting, long strings, many members)."""
+    for kind in bodies.SCALE_KINDS:
+        sizes = DEPTHS[tier] if kind.startswith("deep") else SCALES[tier]
+        for n in sizes:
+            for w in worlds:
+                yield (w, ("GEN", kind, n))
